@@ -57,6 +57,10 @@ SPEC = (
     ("call", "start_carrier_wave", "-", 0), ("call", "stop_carrier_wave", "-", 0), ("call", "load_ack", "ok", 0),
     ("get", "ack", "-", 0), ("get", "crc", "-", 0), ("get", "pa_level", "-", 0), ("call", "get_auto_retries", "-", 0),
     ("call", "address", "pipe0-1", 0),
+    # rejected / clamped inputs: what the object "last established" must not include a refused value
+    ("set", "channel", ">125", 0), ("set", "channel", "<0", 0), ("set", "data_rate", "invalid", 1), ("set", "pa_level", "invalid", 0),
+    ("set", "crc", ">2", 0), ("set", "address_length", ">5", 0), ("set", "ard", ">4000", 0), ("set", "arc", ">15", 0),
+    ("set", "payload_length", ">32", 0),
 )
 
 
@@ -146,7 +150,14 @@ def run_block(st, x, ops, classes, first_entry):
     viol, outs = [], []
     pre = radio.regfile()
     radio.spilog = []
-    obj.__enter__()
+    try:
+        obj.__enter__()
+    except Exception as e:  # noqa - the remembered configuration cannot be written back at all
+        when = "first entered after its construction" if first_entry[x] else "re-entered"
+        viol.append(("restore", cname, "exception", "%s %s: __enter__ raises %s: %s" % (cname, when, type(e).__name__, e)))
+        outs.append("%s:%s:raises" % (cname, "first-entry" if first_entry[x] else "re-entry"))
+        first_entry[x] = False
+        return viol, outs, True
     w.settle(100 * MS)
     reg = radio.regfile()
     written = set()
